@@ -255,18 +255,22 @@ Proof.
     assert (Hev : forall v0, ev_ok s (EDelivered p v0 o)).
     { intros v0 p' o' Ho. cbn [outcome_of] in Ho. destruct (Nat.eqb_spec p p') as [->|]; [|discriminate].
       injection Ho as <-. eauto. }
-    assert (Hres : forall x s1 e1, resolver good_pcfg s (mres m) x = (s1, e1) -> Good s s1 e1).
-    { intros x s1 e1. unfold resolver. destruct (mres m).
-      - apply resolve_call_good. exact I.
-      - intros H; injection H as <- <-. apply good_refl. exact I. }
+    assert (Hres : forall s0 x s1 e1, Inv s0 -> resolver good_pcfg s0 (mres m) x = (s1, e1) -> Good s0 s1 e1).
+    { intros s0 x s1 e1 I0. unfold resolver. destruct (mres m).
+      - apply resolve_call_good. exact I0.
+      - intros H; injection H as <- <-. apply good_refl. exact I0. }
     destruct o as [v|f].
-    + match goal with |- (let '(_, _) := resolver _ _ _ ?x in _) = _ -> _ =>
-        destruct (resolver good_pcfg s (mres m) x) as [s1 e1] eqn:Er end.
-      intros H; injection H as <- <-. apply Hres in Er.
-      change (EDelivered p (mid m) (Val v) :: e1) with ([EDelivered p (mid m) (Val v)] ++ e1).
-      eapply good_trans; [|exact Er]. apply good_evs; [exact I|]. constructor; [apply Hev|constructor].
+    + match goal with |- (let '(_, _) := ?call in _) = _ -> _ => destruct call as [s0 e0] eqn:E0 end.
+      assert (G0 : Good s s0 e0).
+      { destruct (mbeh m); try (injection E0 as <- <-; apply good_refl; exact I).
+        eapply send_op_good; eauto. }
+      match goal with |- (let '(_, _) := ?call in _) = _ -> _ => destruct call as [s1 e1] eqn:Er end.
+      intros H; injection H as <- <-. apply Hres in Er; [|eapply good_inv; exact G0].
+      change (EDelivered p (mid m) (Val v) :: e0 ++ e1) with ([EDelivered p (mid m) (Val v)] ++ (e0 ++ e1)).
+      eapply good_trans; [|eapply good_trans; eassumption].
+      apply good_evs; [exact I|]. constructor; [apply Hev|constructor].
     + destruct (resolver good_pcfg s (mres m) (RFail f)) as [s1 e1] eqn:Er.
-      intros H; injection H as <- <-. apply Hres in Er.
+      intros H; injection H as <- <-. apply Hres in Er; [|exact I].
       change (EDelivered p (mid m) (Fail f) :: e1) with ([EDelivered p (mid m) (Fail f)] ++ e1).
       eapply good_trans; [|exact Er]. apply good_evs; [exact I|]. constructor; [apply Hev|constructor].
   - intros H; injection H as <- <-. apply good_evs; [exact I|]. constructor; [|constructor].
@@ -463,6 +467,20 @@ Proof.
          end; reflexivity.
 Qed.
 
+Lemma send_op_no_delivery c s p m b wr q : delivered_to q (snd (send_op c s p m b wr)) = [].
+Proof.
+  unfold send_op.
+  repeat match goal with
+         | |- context [match ?t with _ => _ end] => destruct t; cbn [snd delivered_to]
+         end; reflexivity.
+Qed.
+
+Lemma delivered_to_app q a b : delivered_to q (a ++ b) = delivered_to q a ++ delivered_to q b.
+Proof.
+  induction a as [|e a IH]; [reflexivity|]. destruct e; cbn [app delivered_to]; rewrite ?IH; try reflexivity.
+  destruct (Nat.eqb p q); cbn [app]; rewrite ?IH; reflexivity.
+Qed.
+
 Theorem pr_once_deliver_partial : forall s q' p m pr o s' e,
   queue s = TDeliver p m :: q' -> tbl s p = Some pr -> ptarget pr = Some o ->
   run_one src_pcfg s = (s', e) ->
@@ -472,13 +490,23 @@ Proof.
   intros s q' p m pr o s' e Hq Hp Ht. unfold run_one. rewrite Hq. cbn [run_task tbl]. rewrite Hp, Ht.
   assert (Hn : forall s0 r x q, delivered_to q (snd (resolver src_pcfg s0 r x)) = []).
   { intros s0 r x q. unfold resolver. destruct r; [apply resolve_call_no_delivery|reflexivity]. }
-  destruct o as [v|f];
+  destruct o as [v|f].
+  - match goal with |- (let '(_, _) := ?call in _) = _ -> _ => destruct call as [s0 e0] eqn:E0 end.
+    assert (H0 : forall q, delivered_to q e0 = []).
+    { intros q. destruct (mbeh m); try (injection E0 as _ <-; reflexivity).
+      match type of E0 with ?c = _ => change e0 with (snd (s0, e0)); rewrite <- E0 end. apply send_op_no_delivery. }
     match goal with |- (let '(_, _) := ?call in _) = _ -> _ =>
-      match call with resolver _ ?s0 ?r ?x => pose proof (fun q => Hn s0 r x q) as Hn' end;
-      destruct call as [s1 e1] eqn:Ec end;
-    intros H; injection H as <- <-; cbn [snd] in Hn';
-    (split; [intros p'|cbn [hd outcome_of]; rewrite Nat.eqb_refl; reflexivity]);
-    cbn [delivered_to]; rewrite (Hn' p'); destruct (Nat.eqb p p'); reflexivity.
+      match call with resolver _ ?sx ?r ?x => pose proof (fun q => Hn sx r x q) as Hn' end;
+      destruct call as [s1 e1] eqn:Ec end.
+    intros H; injection H as <- <-. cbn [snd] in Hn'.
+    split; [intros p'|cbn [hd outcome_of]; rewrite Nat.eqb_refl; reflexivity].
+    cbn [delivered_to]. rewrite delivered_to_app, (Hn' p'), (H0 p'). destruct (Nat.eqb p p'); reflexivity.
+  - match goal with |- (let '(_, _) := ?call in _) = _ -> _ =>
+      match call with resolver _ ?sx ?r ?x => pose proof (fun q => Hn sx r x q) as Hn' end;
+      destruct call as [s1 e1] eqn:Ec end.
+    intros H; injection H as <- <-. cbn [snd] in Hn'.
+    split; [intros p'|cbn [hd outcome_of]; rewrite Nat.eqb_refl; reflexivity].
+    cbn [delivered_to]. rewrite (Hn' p'). destruct (Nat.eqb p p'); reflexivity.
 Qed.
 
 (* D10, for the record: with `self._state == BROKEN` (comparison) in _break the promise stays EVENTUAL after being
@@ -541,3 +569,10 @@ Proof.
   intros ops w1 r1 w2 r2 H1 H2. destruct (oso_before_fire ops oso0 eq_refl) as (r & Hr).
   rewrite (Hr _ _ H1), (Hr _ _ H2). reflexivity.
 Qed.
+
+(* non-vacuity of the re-entrant send: the message a method sends while it runs is delivered behind everything
+   that was already queued for that promise *)
+Example pr_reentrant_send_example :
+  snd (prun src_pcfg ps0 [PNew; PResolve 0 (RVal 9); PSendOnly 0 1 (BSendRet 0 3 7); PSendOnly 0 2 (BRet 0); PTurn; PTurn])
+  = [ESent 0 1; ESent 0 2; EDelivered 0 1 (Val 9); ESent 0 3; EDelivered 0 2 (Val 9); EDelivered 0 3 (Val 9)].
+Proof. vm_compute. reflexivity. Qed.
